@@ -222,17 +222,32 @@ func (r *Row) Shift(n int64) (*Row, error) {
 	}
 
 	work := r
-	var segments []rowSegment
 	for i := int64(0); i < n; i++ {
-		segments = segments[:0]
+		next := &Row{segments: make([]rowSegment, 0, len(work.segments)+1)}
+		var carries []uint64
 		for _, segment := range work.segments {
 			shifted, err := segment.Shift()
 			if err != nil {
 				return nil, errors.Wrap(err, "shifting row segment")
 			}
-			segments = append(segments, *shifted)
+
+			// A bit shifted past the last column of the segment's shard belongs
+			// to the segment of the next shard: take it out of this segment
+			// (together with its container) and carry it over.
+			carryKey := (segment.shard + 1) << shardVsContainerExponent
+			if c := shifted.data.Containers.Get(carryKey); c != nil {
+				if c.N() > 0 {
+					carries = append(carries, (segment.shard+1)*ShardWidth)
+				}
+				shifted.data.Containers.Remove(carryKey)
+				shifted.InvalidateCount()
+			}
+			next.segments = append(next.segments, *shifted)
 		}
-		work = &Row{segments: segments}
+		for _, carry := range carries {
+			next.SetBit(carry)
+		}
+		work = next
 	}
 
 	return work, nil
